@@ -413,6 +413,33 @@ func runC06(c *fw.Ctx) {
 			c.Distinct("shapes", canon.Render(v))
 		}
 	}
+	// (e2) large values: many small collections / many elements / deep nesting in one value
+	for i, n := range []int{100, 1000, 5000, 20000} {
+		if !c.Mine(i) {
+			continue
+		}
+		small := []*canon.Node{canon.Ve(), canon.Li(), canon.Ma(nil), canon.Ve(canon.In(1)), canon.Se("a"), canon.Li(canon.St("s"), canon.Ke("k"))}
+		l := make([]*canon.Node, n)
+		for k := range l {
+			l[k] = small[(k+i)%len(small)]
+		}
+		c06Check(c, env, fmt.Sprintf("large-list-%d", n), canon.Li(l...))
+		m := map[string]*canon.Node{}
+		for k := 0; k < n; k++ {
+			m[fmt.Sprintf("key-%d", k)] = small[k%len(small)]
+		}
+		c06Check(c, env, fmt.Sprintf("large-map-%d", n), canon.Ma(m))
+		deep := canon.In(1)
+		for k := 0; k < n && k < 2000; k++ {
+			if k%2 == 0 {
+				deep = canon.Li(deep)
+			} else {
+				deep = canon.Ve(deep, canon.In(k))
+			}
+		}
+		c06Check(c, env, fmt.Sprintf("deep-%d", n), deep)
+		c.Count("large_values", 3)
+	}
 	// (f) accepted texts
 	rt := c.Rand("texts")
 	for i := 0; i < c.PerShard(c.Pick(1500000, 30000000)); i++ {
